@@ -6,6 +6,7 @@ import core
 import solvercorr as sc
 import solverslices
 
+THEOREMS_SINGLE = ['C04_linear_single_bound', 'Single_instance_laws']
 THEOREMS = ["C04_linear", "C04_background", "C04_footprint_shape_only"]
 TRUSTED = [
     "Model/Solver.v is hand-written in frequency-set form; tied to bldfm.solver by (A) float correspondence of whole solves (FloatOps, vm_compute) and (B) the slice translator + Bridge/SolverBridge.v for every scalar kernel",
@@ -13,7 +14,7 @@ TRUSTED = [
     "the theorems assume the field laws `Laws O` (exact complex arithmetic); IEEE rounding is not covered",
 ]
 ASSUMPTIONS = [
-    "linearity is stated for double-precision storage (a_single = false): complex64 storage rounding is not linear",
+    "C04_linear is stated for double-precision storage (a_single = false): complex64 storage rounding is not linear; for single storage C04_linear_single_bound (Properties/SinglePrecisionProps.v; arbitrary rounding function with |rnd x - x| <= eps |x|; stdlib real axioms) bounds the superposition defect of every cell by eps * Blin, Blin = sum of the moduli of the exact amplitudes of the three runs (concentration in the analytic branch: eps(2+eps))",
     "the linear combination uses real scalars (cre s = s)",
 ]
 
@@ -30,6 +31,7 @@ def gen(ctx):
 
 def check(ctx):
     core.check_properties_file(ctx, "Properties/C04.v", THEOREMS, core.AX_NONE)
+    core.check_properties_file(ctx, "Properties/SinglePrecisionProps.v", THEOREMS_SINGLE, core.AX_REALS, coqchk=False)
     solverslices.run(ctx)
     cases = gen(ctx)
     recs = sc.correspond(ctx, cases, "c04_")
